@@ -75,24 +75,46 @@ Definition check_atom (o : obs_graph) (k : Z) (a : attrs) : nat :=
 (** the three attributes the PROPERTY names (fixed here; not the code's default argument) *)
 Definition c09_attrs : list pystr := [S "fragid"; S "fragname"; S "weight"].
 Definition has_mapping (a : attrs) : bool := ahas (S "mapping") a.
+(** Python's ==: 1.0 == 1 (a weight read from a fragment string is a float, a default weight an int) *)
+Definition val_eqb (x y : pyval) : bool :=
+  pyval_eqb x y || match half_of_num x, half_of_num y with Ok a, Ok b => Z.eqb a b | _, _ => false end.
 Definition same_attr (k : pystr) (a b : attrs) : bool :=
   match aget k a, aget k b with
-  | Some x, Some y => pyval_eqb x y
+  | Some x, Some y => val_eqb x y
   | None, None => true
   | Some VNone, None => true        (* the loop stores None when the anchor lacks the attribute *)
   | _, _ => false
   end.
-(** per hydrogen: 3 = degree is not one (or bond order not 1), 4 = does not carry the anchor's membership *)
-Definition check_h (o : obs_graph) (k : Z) (a : attrs) : nat :=
+(** a hydrogen that was written in a fragment (it carries `mapping`) may keep its OWN membership instead of its
+    anchor's -- a single-hydrogen fragment is a fragment of its own -- but then consistently: one coarse node, whose
+    name (when the coarse graph of the run is known: [coarse], node key -> fragname) is the hydrogen's fragname, and
+    every mapping entry names that fragment *)
+Definition entry_names (fn : pystr) (m : pyval) : bool :=
+  match m with
+  | VTup (VStr n :: _) | VList (VStr n :: _) => str_eqb n fn
+  | _ => false
+  end.
+Definition own_fragment (coarse : list (Z * pystr)) (a : attrs) : bool :=
+  match aget (S "mapping") a, aget (S "fragid") a, aget (S "fragname") a with
+  | Some (VList (m :: ms)), Some (VList [VInt k]), Some (VStr fn) =>
+      forallb (entry_names fn) (m :: ms) &&
+      match coarse with
+      | [] => true
+      | _ => match find (fun p => Z.eqb (fst p) k) coarse with Some p => str_eqb (snd p) fn | None => false end
+      end
+  | _, _, _ => false
+  end.
+(** per hydrogen: 3 = degree is not one (or bond order not 1), 4 = neither its own fragment nor the anchor's membership *)
+Definition check_h (coarse : list (Z * pystr)) (o : obs_graph) (k : Z) (a : attrs) : nat :=
   if negb (is_H a) then 0%nat else
   match oadj o k with
   | [(anchor, d)] =>
       if negb (Z.eqb (half_or0 d) 2) then 3%nat
-      else if has_mapping a then 0%nat
       else match onode o anchor with
            | None => 3%nat
            | Some an =>
-               if forallb (fun attr => same_attr attr a an) c09_attrs then 0%nat else 4%nat
+               if forallb (fun attr => same_attr attr a an) c09_attrs then 0%nat
+               else if has_mapping a && own_fragment coarse a then 0%nat else 4%nat
            end
   | _ => 3%nat
   end.
@@ -124,11 +146,11 @@ Definition explicit_kept (before final : list (Z * attrs)) : nat :=
 (** 7 = an atom is its own neighbour *)
 Definition self_loops (o : obs_graph) : bool :=
   existsb (fun p => existsb (fun q => Z.eqb (fst q) (fst p)) (oadj o (fst p))) (fst o).
-Definition holds_C09 (before : list (Z * attrs)) (final : obs_graph) : nat :=
+Definition holds_C09 (coarse : list (Z * pystr)) (before : list (Z * attrs)) (final : obs_graph) : nat :=
   if self_loops final then 7%nat else
   match first_fail (map (fun p => check_atom final (fst p) (snd p)) (fst final)) with
   | 0%nat =>
-      match first_fail (map (fun p => check_h final (fst p) (snd p)) (fst final)) with
+      match first_fail (map (fun p => check_h coarse final (fst p) (snd p)) (fst final)) with
       | 0%nat => explicit_kept before (fst final)
       | n => n
       end
@@ -178,7 +200,8 @@ Definition extra_ok (x : extra) : bool :=
     c_skip: the input never reached rebuild_h_atoms. *)
 Record case := { c_skip : bool; c_before : graph; c_car : option graph;
                  c_after : option obs_graph; c_final : option obs_graph; c_extra : list extra;
-                 c_nocorr : bool }.
+                 c_nocorr : bool; c_coarse : list (Z * pystr) }.
+(** c_coarse: the coarse graph returned with c_final, node key -> fragname ([] when the run has none: sampler) *)
 (** c_nocorr: the implementation called rebuild_h_atoms in a way the model does not cover (arguments other
     than the defaults, or without calling correct_aromatic_rings): the model is not compared on this case,
     but the PROPERTY is still judged on the molecule that was returned. *)
@@ -203,5 +226,5 @@ Definition prop_fail (c : case) : nat :=
   if c_skip c then 0%nat else
   match c_final c with
   | None => 0%nat
-  | Some fin => holds_C09 (nodes_data (c_before c)) fin
+  | Some fin => holds_C09 (c_coarse c) (nodes_data (c_before c)) fin
   end.
